@@ -275,6 +275,10 @@ for _pid in ('C09', 'C10', 'C11'):
 for _pid in ('C01', 'C06', 'C07', 'C09', 'C13'):
     if 'OtterVerif.Props.C07Evict' not in PROPS[_pid]['modules']:
         PROPS[_pid]['modules'].append('OtterVerif.Props.C07Evict')
+# observers inside the refinement: GetEntry / GetEntryQuietly snapshots, iteration filter
+for _pid in ('C01', 'C03'):
+    if 'OtterVerif.Props.C03Read' not in PROPS[_pid]['modules']:
+        PROPS[_pid]['modules'].append('OtterVerif.Props.C03Read')
 for _pid, _mods in PINS.items():
     for _m in _mods:
         _name = 'OtterVerif.Pin.' + _m
